@@ -17,8 +17,7 @@ Inductive case :=
 | CBlrp (i : blrp_in) (n maxchunk : Z) (total : Z) (trig : option bool)
 | CLimits (opts : list limits_opt) (e : limits_env) (obs : list Z)
 | CLogLimits (oc ol : option Z) (ec el : bytes) (obs : list Z)
-| CSampler (o : option sopt) (name arg : option bytes) (dec : list bool)
-| CKnownPanic (k : N) (panicked : bool).
+| CSampler (o : option sopt) (name arg : option bytes) (dec : list bool).
 
 Definition flag (b : bool) (code : N) : list N := if b then [] else [code].
 
@@ -46,14 +45,6 @@ Definition agree (pr : proto) (host path : bytes) (h : hmap) (g : bool) (t : Z) 
 Definition all_true (l : list bool) : bool := forallb (fun b => b) l.
 
 (** ** narrow classifiers of the recorded findings *)
-(** F-C20-2: log HTTP exporter, path decided by the generic endpoint whose path ends in '/':
-    the signal path is concatenated, giving a double slash. *)
-Definition known2 (f : family) (pr : proto) (opts : list opt) (e : env) (p : bytes) : bool :=
-  match f, pr, last_some opt_path opts, rd_path_specific (spec_ep e), rd_url (gen_ep e) with
-  | FLog, PHttp, None, None, Some u =>
-      ends_with_slash (u_path u) && bytes_eqb p (u_path u ++ sig_path FLog)
-  | _, _, _, _, _ => false
-  end.
 (** F-C20-3: trace / metric HTTP exporter, path decided by the signal-specific endpoint whose
     path is not clean: it is path.Clean-ed instead of being used verbatim. *)
 Definition known3 (f : family) (pr : proto) (opts : list opt) (e : env) (p : bytes) : bool :=
@@ -102,7 +93,7 @@ Definition check_exp (f : family) (pr : proto) (opts : list opt) (e : env) (o : 
      | [w; pa; h; g; t] =>
          verdict (w || negb (grpc_ok pr e)) false 0 ++
          verdict (pa || negb (path_inputs_ok opts e))
-                 (known2 f pr opts e p || known3 f pr opts e p) (if known2 f pr opts e p then 2 else 3) ++
+                 (known3 f pr opts e p) 3 ++
          verdict h (known5 f opts e hd) 5 ++
          verdict g (known4 f opts e gz) 4 ++
          verdict (t || negb (tmo_in_range (spec_tmo e) && tmo_in_range (gen_tmo e))) false 0
@@ -191,7 +182,6 @@ Definition check_case (c : case) : list N :=
   | CLimits opts e obs => check_limits opts e obs
   | CLogLimits oc ol ec el obs => check_loglimits oc ol ec el obs
   | CSampler o name arg dec => check_sampler o name arg dec
-  | CKnownPanic k panicked => if panicked then [V_KNOWN k] else []
   end.
 
 Definition run (cs : list case) : list (N * N) := index_from 0 check_case cs.
